@@ -1,6 +1,8 @@
 """C04 — reported scores equal the published formulas; out-of-domain input is refused."""
 from fractions import Fraction
 
+import numpy as np
+
 from .. import closing as CL
 from .. import gen
 from .. import impl as I
@@ -338,9 +340,61 @@ CORPUS = [
 ]
 
 
+def run_function_api(case):
+    """The module-level function skcriteria.agg.similarity.topsis - the only way to pass the Minkowski order p."""
+    from skcriteria.agg import similarity
+    try:
+        mtx = np.array(case["matrix"], dtype=float)
+        objs = np.array(case["objectives"])
+        w = np.array(case["weights"], dtype=float)
+        out = {}
+        for p in case["ps"]:
+            r, ideal, anti, sim = similarity.topsis(mtx, objs, w, metric="minkowski", p=p)
+            out[str(p)] = {"rank": [int(x) for x in r], "ideal": ideal.tolist(), "anti": anti.tolist(), "sim": sim.tolist()}
+        return out
+    except Exception as e:  # noqa: BLE001
+        return {"error": repr(e)[:200]}
+
+
+def check_function_api(ctx, case, o):
+    """Exact formula with the Minkowski distance of order p, evaluated at 60 digits."""
+    from decimal import Decimal as D, getcontext
+    getcontext().prec = 60
+    if "error" in o:
+        ctx.disagree(case, {"what": "similarity.topsis raised", "exc": o["error"]})
+        return
+    mtx = [[D(repr(x)) * D(repr(wj)) for x, wj in zip(r, case["weights"])] for r in case["matrix"]]
+    m = len(case["weights"])
+    best = [max(r[j] for r in mtx) if case["objectives"][j] == 1 else min(r[j] for r in mtx) for j in range(m)]
+    worst = [min(r[j] for r in mtx) if case["objectives"][j] == 1 else max(r[j] for r in mtx) for j in range(m)]
+    for p in case["ps"]:
+        def dist(a, b):
+            s = sum((abs(x - y) ** D(repr(p)) if x != y else D(0)) for x, y in zip(a, b))
+            return s ** (D(1) / D(repr(p))) if s else D(0)
+        got = o[str(p)]
+        for i, r in enumerate(mtx):
+            db, dw = dist(r, best), dist(r, worst)
+            if db + dw == 0:
+                continue
+            want = dw / (db + dw)
+            if abs(D(repr(got["sim"][i])) - want) > D("1e-9"):
+                ctx.oracle_fail(case, {"oracle": f"similarity.topsis(metric='minkowski', p={p}): alternative {i} has "
+                                                 f"similarity {got['sim'][i]!r} but the formula gives {str(want)[:20]}"})
+                return
+
+
 def run(ctx):
     I.repo_check()
     ctx.rule = RULE
+    fcases = []
+    for _ in range(ctx.n(40, 400)):
+        c = M.method_case(ctx.rng, "topsis")
+        c["ps"] = ctx.rng.sample([1, 2, 3, 4, 1.5], 2)
+        fcases.append(c)
+    for c, o in zip(fcases, I.pmap(run_function_api, fcases)):
+        ctx.count("function_api:topsis_minkowski_p")
+        ctx.case_seen(c, True)
+        check_function_api(ctx, c, o)
     per = ctx.n(100, 2000)
     cases = list(CORPUS)
     for name in NAMES:
